@@ -185,6 +185,18 @@ CLAIMED = {
         "technique": "Coq proof (list induction) on a hand model + regenerated wiring tables; exact row differential; scipy oracle",
         "design": "DESIGN.md section 5, C15",
     },
+    "C16": {
+        "text": "Coq theorems (props/C16.v) over the hand model of rendering (exact decimal rendering of the rational a float "
+                "denotes): correct half-even rounding, the relative error bound 0.5*10^(1-s) for s significant digits (division-"
+                "free form), specials / sign / percent, right-justification and column widths of to_string, HTML escaping "
+                "(no raw markup, unescape o escape = id). Tie: exact string equality of format_num, to_string and to_html with "
+                "the model (vm_compute) on thousands of floats incl. rounding boundaries and on random result objects; "
+                "round-trip bound also checked exactly in Q on the real output; views expose the same rows",
+        "note": "trusted: Coq kernel (no axioms), hand model tied by string differential; digit generation/parsing and the float "
+                "operations round()/log10/val*100 are idealised (validated for sig <= 6); dataframe views by differential",
+        "technique": "Coq proof (integer arithmetic, list induction) on a hand rendering model; exact string differential",
+        "design": "DESIGN.md section 5, C16",
+    },
 }
 REASONS = {}
 
